@@ -368,7 +368,7 @@ fn run(ctx: &mut Ctx) {
             }
         }
     });
-    let n = ctx.tier.pick(300_000, 20_000_000);
+    let n = ctx.tier.pick(300_000, 100_000_000);
     ctx.cases("random", n, |ctx, _i, rng| {
         let z = rng.range(-1.3, 1.3);
         let t = rng.range(-1e-6, 5e-6);
